@@ -831,8 +831,14 @@ impl Error {
             other => other,
         };
 
-        // Keep snippet coordinates aligned with parsers that ignore a leading UTF-8 BOM.
-        let text = text.strip_prefix('\u{FEFF}').unwrap_or(text);
+        // Keep snippet coordinates aligned with parsers that ignore a leading UTF-8 BOM: the
+        // mark at the very start of the stream. A fragment that begins further down (a reader's
+        // window of recent bytes) may start with a U+FEFF that the parser counted as a character.
+        let text = if start_line <= 1 {
+            text.strip_prefix('\u{FEFF}').unwrap_or(text)
+        } else {
+            text
+        };
 
         fn push_region_for_location(
             regions: &mut Vec<CroppedRegion>,
